@@ -177,6 +177,53 @@ impl Runner {
     }
 }
 
+/// Run one side of a `CoGroup` sequentially; shared by the plain and the checkpointing engine.
+fn run_subplan_seq(chain: Vec<Node>) -> Result<Vec<Partition>> {
+    let mut curr: Option<Partition> = None;
+    for node in chain {
+        curr = Some(match node {
+            Node::Source {
+                payload, vec_ops, ..
+            } => vec_ops
+                .clone_any(payload.as_ref())
+                .ok_or_else(|| anyhow!("unsupported source vec type"))?,
+            Node::Stateless(ops) => ops
+                .into_iter()
+                .fold(curr.take().unwrap(), |acc, op| op.apply(acc)),
+            Node::GroupByKey { local, merge } => {
+                let mid = local(curr.take().unwrap());
+                merge(vec![mid])
+            }
+            Node::CombineValues {
+                local_pairs,
+                local_groups,
+                merge,
+            } => {
+                // choose which local to run based on the presence of local_groups
+                let local = local_groups.map_or(local_pairs, |lg| lg);
+                let mid = local(curr.take().unwrap());
+                merge(vec![mid])
+            }
+            Node::Materialized(p) => Box::new(p) as Partition,
+            Node::CoGroup { .. } => bail!("nested CoGroup not supported in subplan"),
+            Node::CombineGlobal {
+                local,
+                merge,
+                finish,
+                ..
+            } => {
+                let mid = local(curr.take().unwrap());
+                let acc = merge(vec![mid]);
+                if let Some(h) = acc.downcast_ref::<BinaryHeap<NotNan<f64>>>() {
+                    eprintln!("DEBUG: KMV heap len = {}", h.len()); // should be <= k
+                }
+                finish(acc)
+            }
+        });
+    }
+    Ok(vec![curr.unwrap()])
+}
+
 /// Execute a fully linearized chain **sequentially**, collecting `Vec<T>`.
 ///
 /// Internal helper used by [`Runner::run_collect`]. Walks the chain left->right,
@@ -184,52 +231,6 @@ impl Runner {
 #[allow(clippy::too_many_lines)]
 fn exec_seq<T: 'static + Send + Sync + Clone>(chain: Vec<Node>) -> Result<Vec<T>> {
     let mut buf: Option<Partition> = None;
-
-    let run_subplan_seq = |chain: Vec<Node>| -> Result<Vec<Partition>> {
-        let mut curr: Option<Partition> = None;
-        for node in chain {
-            curr = Some(match node {
-                Node::Source {
-                    payload, vec_ops, ..
-                } => vec_ops
-                    .clone_any(payload.as_ref())
-                    .ok_or_else(|| anyhow!("unsupported source vec type"))?,
-                Node::Stateless(ops) => ops
-                    .into_iter()
-                    .fold(curr.take().unwrap(), |acc, op| op.apply(acc)),
-                Node::GroupByKey { local, merge } => {
-                    let mid = local(curr.take().unwrap());
-                    merge(vec![mid])
-                }
-                Node::CombineValues {
-                    local_pairs,
-                    local_groups,
-                    merge,
-                } => {
-                    // choose which local to run based on the presence of local_groups
-                    let local = local_groups.map_or(local_pairs, |lg| lg);
-                    let mid = local(curr.take().unwrap());
-                    merge(vec![mid])
-                }
-                Node::Materialized(p) => Box::new(p) as Partition,
-                Node::CoGroup { .. } => bail!("nested CoGroup not supported in subplan"),
-                Node::CombineGlobal {
-                    local,
-                    merge,
-                    finish,
-                    ..
-                } => {
-                    let mid = local(curr.take().unwrap());
-                    let acc = merge(vec![mid]);
-                    if let Some(h) = acc.downcast_ref::<BinaryHeap<NotNan<f64>>>() {
-                        eprintln!("DEBUG: KMV heap len = {}", h.len()); // should be <= k
-                    }
-                    finish(acc)
-                }
-            });
-        }
-        Ok(vec![curr.unwrap()])
-    };
 
     for node in chain {
         buf = Some(match node {
@@ -657,7 +658,29 @@ fn exec_seq_with_checkpointing<T: 'static + Send + Sync + Clone>(
                     .cloned()
                     .ok_or_else(|| anyhow!("terminal type mismatch"))?,
             ) as Partition,
-            Node::CoGroup { .. } => bail!("CoGroup requires subplan execution"),
+            Node::CoGroup {
+                left_chain,
+                right_chain,
+                coalesce_left,
+                coalesce_right,
+                exec,
+            } => {
+                let mut left_parts = run_subplan_seq((*left_chain).clone())?;
+                let mut right_parts = run_subplan_seq((*right_chain).clone())?;
+
+                let left_single: Partition = if left_parts.len() == 1 {
+                    left_parts.pop().unwrap()
+                } else {
+                    coalesce_left(left_parts)
+                };
+                let right_single: Partition = if right_parts.len() == 1 {
+                    right_parts.pop().unwrap()
+                } else {
+                    coalesce_right(right_parts)
+                };
+
+                exec(left_single, right_single)
+            }
             Node::CombineGlobal {
                 local,
                 merge,
